@@ -63,6 +63,16 @@ ELEMENTWISE = [{"name": "scale", "k": "2"}, {"name": "scale", "k": "1/2"}, {"nam
                {"name": "zeroBelow", "k": "3"}, {"name": "zeroBelow", "k": "10"}]
 VECTORWISE = [{"name": "zeroOdd"}, {"name": "fillSum"}, {"name": "reverse"}, {"name": "byIdMd"}]
 KERNEL_ONLY = [{"name": "bcastSum"}, {"name": "dropLast"}]
+# functions that only CARRY values (move, negate, double, compare, zero): exact in binary64 whatever the magnitude,
+# so they may be run on tiny / huge values without leaving the model's exact arithmetic
+CARRIERS = [{"name": "reverse"}, {"name": "zeroOdd"}, {"name": "zeroBelow", "k": "3"}, {"name": "zeroBelow", "k": "10"},
+            {"name": "scale", "k": "-1"}, {"name": "scale", "k": "2"}, {"name": "scale", "k": "0"}]
+# magnitudes far from ordinary counts: smallest subnormal, tiny concentrations, values just around the default
+# absolute tolerance of numpy.isclose (1e-8), totals above 1e8, very large
+WILD = [5e-324, 1e-300, 1e-12, 1.33e-9, 1e-8, 9.9e-9, 1.01e-8, 1e8, 2.5e8, 3e9, 1e12, 1e300]
+# the subset on which float normalisation stays within 2^-40 of the exact quotient (no underflow, no subnormal
+# quotient: smallest ratio about 1e-25)
+NORM_WILD = [1e-12, 1.33e-9, 1e-8, 9.9e-9, 1.01e-8, 1e8, 2.5e8, 3e9, 1e12, 123456789.0]
 
 
 def fn_tag(fn):
@@ -109,6 +119,9 @@ def gen_kernel_case(rng, impl, fn=None, zeros=None, sort=None):
     n_minor = rng.randint(0, 6)
     zeros = rng.random() < 0.4 if zeros is None else zeros
     sort = rng.random() < 0.4 if sort is None else sort
+    wild = fn is None and rng.random() < 0.25  # tiny / huge stored values, value-carrying functions only
+    if wild:
+        fn = rng.choice(CARRIERS + [{"name": "dropLast"}])
     indptr, indices, data = [0], [], []
     for _ in range(n_major):
         k = rng.randint(0, n_minor)
@@ -119,6 +132,8 @@ def gen_kernel_case(rng, impl, fn=None, zeros=None, sort=None):
             indices.append(j)
             if zeros and rng.random() < 0.3:
                 data.append(0.0)
+            elif wild and rng.random() < 0.5:
+                data.append(rng.choice(WILD) * rng.choice([1.0, 1.0, -1.0]))
             else:
                 data.append(core.gen_value(rng, rng.choice(["count", "smallcount", "dyadic", "neg"])))
         indptr.append(len(indices))
@@ -197,6 +212,11 @@ def apply_hist(t, hist):
         t.filter(lambda v, i, m: True, axis="sample", inplace=True)
     elif hist == "csr-transform":
         t.transform(lambda v, i, m: v, axis="observation", inplace=True)
+    elif hist == "norm-sample":
+        # chains norm -> X: relative abundances of a vector totalling more than 1e8 fall below 1e-8
+        t.norm(axis="sample", inplace=True)
+    elif hist == "norm-observation":
+        t.norm(axis="observation", inplace=True)
     return t
 
 
@@ -299,11 +319,14 @@ def check_table(ctx, impls, case, tags=()):
 
 def ask_table(ctx, case, before, axis, inplace, cap, obs, facts, tags):
     tags = tuple(tags) + ("table", "impl=" + case["impl"], "op=" + case["op"], "axis=" + axis,
-                          "route=" + str(case.get("route")), "hist=" + str(case.get("hist")))
+                          "route=" + str(case.get("route")), "hist=" + str(case.get("hist")),
+                          "values=" + str(case.get("wild") or "ordinary"))
     ctx.case(case, nontrivial=nnz_of(before["rows"]) >= 2 and asym(before["rows"]))
     ctx.count("table:%s" % case["impl"])
     ctx.count("table:op=%s" % (case["op"] + (":" + case["method"] if case["op"] == "rankdata" else "")))
     ctx.count("table:axis=%s,inplace=%s" % (axis, inplace))
+    ctx.count("table:values=%s" % (case.get("wild") or "ordinary"))
+    ctx.count("table:hist=%s" % case.get("hist"))
     ctx.count("table:layout-in=%s%s" % (facts.get("format"), "" if facts.get("sorted", True) else "-unsorted"))
     if cap["calls"] != 1:
         ctx.fail(case, "kernel-called-once", tags, detail={"calls": cap["calls"]})
@@ -404,14 +427,48 @@ def check_cli(ctx, impls, case, tags=()):
 
 
 # ----------------------------------------------------------------------------- generation
-def gen_table_spec(rng, nonneg=False, big=False):
+def gen_table_spec(rng, nonneg=False, big=False, wild=None):
     classes = ("count", "smallcount", "dyadic") if nonneg else ("count", "smallcount", "dyadic", "neg")
     hi = 8 if big else 6
     # the property's domain is the C01 domain: 1..N observations x 1..M samples (tables with an empty axis are
     # C05's subject: their matrix is 0x0 whatever the IDs say, and per-ID operations refuse to answer)
     spec = core.gen_spec(rng, max_n=hi, max_m=hi + 1, min_n=1, min_m=1, classes=classes,
                          density=rng.choice([0.2, 0.4, 0.6, 0.8, 1.0]))
+    if wild:
+        pool = NORM_WILD if wild == "norm" else WILD
+        rows = spec["rows"]
+        for r in rows:
+            for j, x in enumerate(r):
+                if x != 0 and rng.random() < 0.4:
+                    r[j] = rng.choice(pool) * (-1.0 if (not nonneg and wild != "norm" and rng.random() < 0.15) else 1.0)
+        # a vector whose total exceeds 1e8 and that also holds a singleton (on a row and on a column)
+        n, m = len(rows), len(rows[0])
+        if m >= 2:
+            i = rng.randrange(n)
+            a, b = rng.sample(range(m), 2)
+            rows[i][a], rows[i][b] = rng.choice([1e8 + 1, 2.5e8, 3e9, 1e12]), 1.0
+        if n >= 2:
+            j = rng.randrange(m)
+            a, b = rng.sample(range(n), 2)
+            rows[a][j], rows[b][j] = rng.choice([1e8 + 1, 2.5e8, 3e9, 1e12]), 1.0
     return spec
+
+
+def gen_wild_case(rng, impl):
+    """tiny / huge magnitudes: only operations whose float result is exact (pa, ranks, value-carrying transforms),
+    norm on the subset that stays within its tolerance, and norm -> X chains"""
+    op = rng.choice(["pa", "pa", "rankdata", "transform", "norm"])
+    chain = op != "norm" and rng.random() < 0.45
+    kind = "norm" if (op == "norm" or chain) else "all"
+    case = {"level": "table", "impl": impl, "op": op, "wild": kind,
+            "spec": gen_table_spec(rng, nonneg=(kind == "norm"), wild=kind), "route": rng.choice(core.ROUTES),
+            "hist": rng.choice(["norm-sample", "norm-observation"]) if chain else rng.choice(HISTS),
+            "axis": rng.choice(["sample", "observation"]), "inplace": rng.choice([True, False])}
+    if op == "transform":
+        case["fn"] = rng.choice(CARRIERS)
+    if op == "rankdata":
+        case["method"] = rng.choice(RANK_METHODS)
+    return case
 
 
 def gen_table_case(rng, impl, op=None):
@@ -457,6 +514,24 @@ def fixed_corpus(impl_names):
                             "inplace": False})
                 out.append({"level": "table", "impl": impl, "op": "pa", "spec": ties, "route": route, "axis": axis,
                             "inplace": True})
+        # magnitudes around and far below numpy.isclose's absolute tolerance: non-zero is non-zero (pa must write 1,
+        # ranks must be positive), directly and after a normalisation of vectors totalling more than 1e8
+        tiny = {"obs": ["a", "b", "c"], "samp": ["x", "y", "z", "w"],
+                "rows": [[1.33e-9, 0.0, 5.0, 1e-8], [9.9e-9, 2.0, 0.0, 0.0], [5e-324, 1e-300, 1e-12, -1.33e-9]],
+                "omd": None, "smd": [{"k": 1}, {"k": 2}, {"k": 3}, {"k": 4}], "type": None}
+        chain = {"obs": ["a", "b", "c"], "samp": ["x", "y", "z"],
+                 "rows": [[3e8, 1.0, 0.0], [0.0, 2.5e8, 1.0], [1.0, 0.0, 7.0]], "omd": None, "smd": None, "type": None}
+        for inplace in (True, False):
+            for axis in ("sample", "observation"):
+                for spec, hists in ((tiny, (None, "csc-transform")), (chain, ("norm-sample", "norm-observation"))):
+                    for hist in hists:
+                        base = {"level": "table", "impl": impl, "spec": spec, "route": "dense", "hist": hist,
+                                "axis": axis, "inplace": inplace, "wild": "fixed"}
+                        out.append(dict(base, op="pa"))
+                        out.append(dict(base, op="rankdata", method="average"))
+                        out.append(dict(base, op="transform", fn={"name": "reverse"}))
+                out.append({"level": "table", "impl": impl, "op": "norm", "spec": chain, "route": "csc", "hist": None,
+                            "axis": axis, "inplace": inplace, "wild": "fixed"})
         # kernel level: a stored zero is handed to the function (NoStoredZeros is needed below the API)
         out.append({"level": "kernel", "impl": impl, "axisnum": 0, "nMajor": 2, "nMinor": 3, "indptr": [0, 3, 4],
                     "indices": [0, 1, 2, 1], "data": ["3", "0", "5", "2"], "ids": ["a", "b"], "mds": None,
@@ -541,19 +616,25 @@ def run(ctx):
                     dispatch(ctx, impls, dict({"level": "table", "impl": impl, "op": op, "spec": spec,
                                                   "route": route, "hist": hist or None, "axis": axis,
                                                   "inplace": rng.choice([True, False])}, **kw), ("systematic",))
-    for _ in range(n_table):
-        case = gen_table_case(rng, names[0])
-        if not quick and rng.random() < 0.2:
+    for k in range(n_table):
+        case = gen_wild_case(rng, names[0]) if k % 3 == 2 else gen_table_case(rng, names[0])
+        if not quick and "wild" not in case and rng.random() < 0.2:
             case["spec"] = gen_table_spec(rng, nonneg=(case["op"] == "norm"), big=True)
         for impl in names:
             dispatch(ctx, impls, dict(case, impl=impl))
     for _ in range(n_axis):
-        case = {"level": "axisfree", "spec": gen_table_spec(rng), "route": rng.choice(core.ROUTES),
-                "hist": rng.choice(HISTS), "fn": rng.choice(ELEMENTWISE + [{"name": "pa"}])}
+        if rng.random() < 0.4:
+            case = {"level": "axisfree", "spec": gen_table_spec(rng, wild="all"), "route": rng.choice(core.ROUTES),
+                    "hist": rng.choice(HISTS), "wild": "all",
+                    "fn": rng.choice([{"name": "pa"}, {"name": "pa"}] + [f for f in CARRIERS if f in ELEMENTWISE])}
+        else:
+            case = {"level": "axisfree", "spec": gen_table_spec(rng), "route": rng.choice(core.ROUTES),
+                    "hist": rng.choice(HISTS), "fn": rng.choice(ELEMENTWISE + [{"name": "pa"}])}
         for impl in names:
             dispatch(ctx, impls, dict(case, impl=impl))
     for k in range(n_cli):
-        case = {"level": "cli", "op": rng.choice(["norm", "pa"]), "spec": gen_table_spec(rng, nonneg=True),
+        case = {"level": "cli", "op": rng.choice(["norm", "pa"]),
+                "spec": gen_table_spec(rng, nonneg=True, wild="norm" if k % 2 else None),
                 "route": rng.choice(core.ROUTES), "axis": rng.choice(["sample", "observation"]),
                 "fmt": rng.choice(["json", "hdf5"]), "inplace": True}
         for impl in names:
